@@ -394,11 +394,17 @@ func runC17Child(o Opts) {
 	from := o.N
 	// real-time watchdog, outside every bubble: virtual time only advances when all goroutines of
 	// the bubble are blocked, so a loop that spins freezes the scenario in real time
+	limit := 10 * time.Second // a scenario takes some 30 ms of real time
+	if os.Getenv("C17_WATCHDOG_S") != "" {
+		var n int
+		fmt.Sscan(os.Getenv("C17_WATCHDOG_S"), &n)
+		limit = time.Duration(n) * time.Second
+	}
 	go func() {
 		for {
 			time.Sleep(200 * time.Millisecond)
-			if b := c17Beat.Load(); b != 0 && realNow()-b > int64(25*time.Second) {
-				fmt.Fprintln(os.Stderr, "C17 WATCHDOG: the scenario made no progress for 25 s of real time (the backup task is spinning)")
+			if b := c17Beat.Load(); b != 0 && realNow()-b > int64(limit) {
+				fmt.Fprintf(os.Stderr, "C17 WATCHDOG: the scenario made no progress for %v of real time (the backup task is spinning)\n", limit)
 				os.Exit(77)
 			}
 		}
@@ -463,6 +469,9 @@ func runC17(o Opts) {
 		var stderr bytes.Buffer
 		cmd.Stderr = &stderr
 		cmd.Stdout = &stderr
+		if o.Replay != "" { // re-runs (replay, shrinking): a shorter fuse
+			cmd.Env = append(os.Environ(), "C17_WATCHDOG_S=4")
+		}
 		runErr := cmd.Run()
 		next := from
 		stuckLast := false
@@ -502,7 +511,8 @@ func runC17(o Opts) {
 		what := "the harness child process died: " + runErr.Error()
 		switch {
 		case strings.Contains(es, "C17 WATCHDOG"):
-			what = "the backup task spins: virtual time could not advance (no progress for 25 s of real time)"
+			what = "the backup task spins: virtual time could not advance (real-time watchdog)"
+			crashes += 3 // one more scenario, then stop: every further one costs the watchdog's patience
 		case strings.Contains(es, "panic:"):
 			what = "panic"
 		}
